@@ -389,6 +389,98 @@ def _find_ite(e, depth=0):
     return None
 
 
+_HINT = [None]     # the part of the variable's domain on which the answer has to be right (set by leaves())
+
+
+def affine(e, var, depth=0):
+    """e == k*var + c over the mathematical integers (casts pass values through unchanged; the caller checks that
+    nothing wraps on the domain of interest); returns (k, c) or None"""
+    if depth > 20:
+        return None
+    if e == var:
+        return (1, 0)
+    if gate.is_c(e):
+        return (0, gate.sval(e)) if e[1] > 1 else None
+    if e[0] == "cast" and e[1] in ("sext", "zext", "trunc"):
+        return affine(e[4], var, depth + 1)
+    if e[0] == "op" and e[1] in ("add", "sub"):
+        x, y = affine(e[3], var, depth + 1), affine(e[4], var, depth + 1)
+        if x is None or y is None:
+            return None
+        return (x[0] + y[0], x[1] + y[1]) if e[1] == "add" else (x[0] - y[0], x[1] - y[1])
+    if e[0] == "op" and e[1] == "mul":
+        x, y = affine(e[3], var, depth + 1), affine(e[4], var, depth + 1)
+        if x is None or y is None:
+            return None
+        if x[0] == 0:
+            return (x[1] * y[0], x[1] * y[1])
+        if y[0] == 0:
+            return (y[1] * x[0], y[1] * x[1])
+        return None
+    if e[0] == "op" and e[1] == "shl" and gate.is_c(e[4]):
+        x = affine(e[3], var, depth + 1)
+        return None if x is None else (x[0] << e[4][2], x[1] << e[4][2])
+    return None
+
+
+def _affine_cmp(pred, X, Y, var, width):
+    """truth set of  X pred Y  for two affine expressions of the variable, valid on the hinted domain only (checked:
+    both sides stay inside the signed range of the comparison width there, and the variable is non-negative or the
+    comparison is signed)"""
+    D = _HINT[0]
+    if D is None or not D.ivs:
+        return None
+    nb = D.bits
+    runs = D.signed_intervals()
+    lo, hi = runs[0][0], runs[-1][1]
+    ax, ay = affine(X, var), affine(Y, var)
+    if ax is None or ay is None:
+        return None
+    lim = 1 << (width - 1)
+    for (k, c) in (ax, ay):
+        for v in (lo, hi):
+            if not (-lim <= k * v + c < lim):
+                return None
+    if pred[0] == "u":
+        # unsigned comparison of values that are non-negative on the domain is the mathematical one
+        for (k, c) in (ax, ay):
+            if min(k * lo + c, k * hi + c) < 0:
+                return None
+        pred = {"ult": "lt", "ule": "le", "ugt": "gt", "uge": "ge"}[pred]
+    pred = {"slt": "lt", "sle": "le", "sgt": "gt", "sge": "ge"}.get(pred, pred)
+    k, c = ax[0] - ay[0], ay[1] - ax[1]          # k*a  pred  c
+    def sat(a):
+        l, r = k * a, c
+        return {"eq": l == r, "ne": l != r, "lt": l < r, "le": l <= r, "gt": l > r, "ge": l >= r}[pred]
+    if k == 0:
+        return ISet.full(nb) if sat(0) else ISet.empty(nb)
+    # monotone in a: at most two boundaries; find them exactly on [lo, hi]
+    out = []
+    if pred in ("eq", "ne"):
+        pts = [c // k] if c % k == 0 and lo <= c // k <= hi else []
+        eqset = ISet.from_signed(nb, pts[0], pts[0]) if pts else ISet.empty(nb)
+        full = ISet.from_signed(nb, lo, hi)
+        res = eqset if pred == "eq" else full - eqset
+    else:
+        # the set {a in [lo,hi] : sat(a)} is a prefix or a suffix
+        if sat(lo) and sat(hi):
+            res = ISet.from_signed(nb, lo, hi)
+        elif not sat(lo) and not sat(hi):
+            res = ISet.empty(nb)
+        else:
+            a, b = lo, hi
+            first = sat(lo)
+            while b - a > 1:
+                m = (a + b) // 2
+                if sat(m) == first:
+                    a = m
+                else:
+                    b = m
+            res = ISet.from_signed(nb, lo, a) if first else ISet.from_signed(nb, b, hi)
+    # outside the hinted domain the answer is irrelevant: return the set restricted to the domain's hull
+    return res
+
+
 def truth(c, var, depth=0):
     """truth set of an i1 expression of the single free variable; piecewise sub-expressions (ite nested inside an
     arithmetic expression, e.g. |a|) are split on their own condition"""
@@ -421,7 +513,7 @@ def _truth(c, var):
             if gate.is_c(x):
                 x, k, pred = k, x, gate._SWAP[pred]
             else:
-                return None
+                return _affine_cmp(pred, x, k, var, gate._bits(ty) or 64)
         mb = gate._bits(ty)
         S = _pred_set(pred, mb, k[2])
         return None if S is None else preimage(x, S, var)
@@ -429,6 +521,14 @@ def _truth(c, var):
         mp, xa, xb = c[1], c[2], c[3]
         if xa[0] == "math" and xb[0] != "math":
             xa, xb, mp = xb, xa, {"eq": "eq", "ne": "ne", "lt": "gt", "le": "ge", "gt": "lt", "ge": "le"}[mp]
+        if xb[0] != "math" and xa[0] != "math":
+            # both sides are expressions of the variable: affine comparison (by-value view: mathematical predicate)
+            w = max(gate._bits(xa[1]) or 0, gate._bits(xb[1]) or 0) + 1
+            mpred = {"eq": "eq", "ne": "ne", "lt": "slt", "le": "sle", "gt": "sgt", "ge": "sge"}[mp]
+            if xa[0] == "zext" or xb[0] == "zext":
+                # a zero-extended side is read as unsigned: only sound if it is non-negative as a signed value too; _affine_cmp checks ranges
+                pass
+            return _affine_cmp(mpred, xa[2], xb[2], var, w)
         if xb[0] != "math" or xa[0] == "math":
             return None
         kind, ty, x = xa
@@ -487,6 +587,7 @@ def leaves(g, var, D):
     def walk(e, dom):
         if not dom:
             return
+        _HINT[0] = dom
         if e[0] == "ite":
             T = truth(e[1], var)
             if T is None:
